@@ -893,7 +893,7 @@ class TransformScenario(ProgramScenario):
                         vio('prologue/missing-or-duplicated', True, 'the printed program of a modified file holds %d of the 2 prologue statements (verbosity %s)' % (npro, getattr(res['cfgspec'], 'verbosity_chosen', res['cfgspec'].verbosity)))
                 pa = to_view(prints[0]['args'], defs)
                 fn = pa.get('source_file_name')
-                if fn is None or O.leaf_eq(fn, 'test.js') is not True:
+                if fn is None or O.leaf_eq(fn, res.get('file', 'dir/test.js').split('/')[-1]) is not True:
                     vio('transform/source-file-name-is-not-the-base-name', True, 'source_file_name = %s' % (fn,), 'C09')
                 if pa.get('emit_source_map_columns') is not True:
                     vio('transform/column-mappings-disabled', True, '', 'C09')
@@ -905,9 +905,9 @@ class RewriteScenario(TransformScenario):
     """rewriter::rewrite_js(code, file, config, reader): the public entry point.  swc's compiler is stubbed: `try_with_handler`
     runs the closure with an opaque handler, `SourceMap::new_source_file` records the FileName it is given, `Compiler::parse_js`
     returns either an error or the symbolic program, `Compiler::print` as in TransformScenario.
-    Contract of swc's source-map builder taken as given (swc_common::source_map::SourceMapGenConfig::skip, default impl):
-    positions of a file whose name is `FileName::Custom(s)` with s starting with '<' (and of Internal / anonymous names)
-    produce NO mappings."""
+    Contract of swc's source-map builder taken as given (swc_compiler_base::SwcSourceMapConfig::skip, used by Compiler::print):
+    positions of a file whose name is `FileName::Internal(..)` or `FileName::Custom(s)` with s starting with '<' produce NO
+    mappings."""
 
     FILES = ['dir/test.js', 'test.js', '<anonymous>']
 
@@ -984,7 +984,7 @@ class RewriteScenario(TransformScenario):
             name = payload0['_fields'][0]
         elif isinstance(payload0, (str, z3.ExprRef)):
             name = payload0
-        skipped = (kindv in ('Internal', 'Anon', 'MacroExpansion', 'ProcMacroSourceCode', 'QuoteExpansion')) or (kindv == 'Custom' and isinstance(name, str) and name.startswith('<'))
+        skipped = kindv == 'Internal' or (kindv == 'Custom' and isinstance(name, str) and name.startswith('<'))
         if skipped:
             nat = replay().rewrite('function f(a, b) { return a + b; }', {'methods': [{'src': 'plusOperator', 'operator': True}]}, file=file)
             nm = len(decode_mappings(json.loads(nat['source_map']).get('mappings', ''))) if nat.get('ok') and nat.get('source_map') else None
